@@ -789,6 +789,10 @@ func (fr *Frame) binop(x *ssa.BinOp) *Term {
 				// flag absmod: a signed remainder by a symbolic divisor is abstracted to an uninterpreted function that
 				// keeps only the facts index wrap-around needs (an over-approximation: anything proved still holds)
 				r := UFApp("absmod", at.S, at, bt)
+				if hasBound(at) || hasBound(bt) {
+					// inside a quantifier body the facts cannot be stated as top-level assumptions: exact remainder there
+					return BV("bvsrem", at, bt)
+				}
 				zero := BVLit(0, w)
 				nonneg := And(BVCmp("bvsle", zero, at), BVCmp("bvslt", zero, bt))
 				c.assume(Implies(nonneg, And(BVCmp("bvsle", zero, r), BVCmp("bvslt", r, bt))))
